@@ -18,6 +18,8 @@ CLAUSE = CLAUSE + (" (RF-CORR) the per-network count of referenced pages moves w
                    "after vbi->cn has been replaced, never on the network whose pages are still stored.")
 CLAUSE = CLAUSE + (" (RF-TAB) a stored page is copied with the size cache_page_size() gives it; every designation-guarded read of a "
                    "variable page part (data.ext_lop, data.enh_lop) is under designation bits for which that size includes the part.")
+CLAUSE = CLAUSE + (" (RF-WIDTH) the statistics fields that take a page's subpage number can hold every subcode the decoder stores "
+                   "(mask 0x3F7F).")
 NOT_DECIDED = ("map semantics (lookup returns the most recent version), memory-limit arithmetic, exactness of the per-network "
                "statistics, distinctness of death_row entries across the two eviction passes.")
 
@@ -43,6 +45,7 @@ def run(ctx, run):
     # covers every part a designation-guarded reader touches (rule shared with C01)
     from . import C01
     C01._page_sizes(ctx, run)
+    _subno_range_fits(ctx, run)
 
 
 def _pairing(ctx, run, what, acq, rel, hint, movers, floor):
@@ -451,3 +454,63 @@ def _priority_passes(ctx, run):
                               "skipped priority are never evicted by it, so the cache stays above its memory limit" % (last, hi),
                               ex.loc(f, ex.skip(f, t["cond"])), witness={"last": last, "special": hi})
     run.floor("passes over the cache priorities", n, 4)
+
+
+def _subno_range_fits(ctx, run):
+    """RF-WIDTH: the per-page statistics record the range of subpage numbers received
+    (subno_min / subno_max); vbi_cache_hi_subno() reports it and the page walk of the search
+    visits exactly that range.  Subpage numbers are 14 bit subcodes (the decoder masks the header
+    with 0x3F7F; clock pages are cached with their time-coded number up to 0x2359), so the fields
+    that take `cp->subno` must be able to hold that mask - a narrower field keeps the low bits
+    only: 'highest subpage' disagrees with the map and the walk never reaches the page."""
+    P = ctx.prog
+    # the widest subcode the decoder stores
+    masks = []
+    for f in P.funcs:
+        if f.file != "src/packet.c":
+            continue
+        for bid, i in flow.all_events(f):
+            for lhs, var, op, rhs in flow.stores(f, i):
+                if lhs is None or rhs is None or op != "=":
+                    continue
+                l = f.exprs[ex.skip(f, lhs)]
+                if l["k"] == "mem" and l["member"] == "subno" and l.get("in") == "cache_page":
+                    r = f.exprs[ex.skip(f, rhs)]
+                    while r["k"] == "cast":
+                        r = f.exprs[ex.skip(f, r["c"][0])]
+                    if r["k"] == "bin" and r["op"] == "&":
+                        for c in r["c"]:
+                            v = ex.const(f, c)
+                            if v is not None:
+                                masks.append(v)
+    if not masks:
+        raise AnalysisBroken("no masked store to cache_page.subno found in packet.c")
+    top = max(masks)
+    n = 0
+    for f in P.funcs:
+        if f.file != "src/cache.c":
+            continue
+        for bid, i in flow.all_events(f):
+            for lhs, var, op, rhs in flow.stores(f, i):
+                if lhs is None or rhs is None or op != "=":
+                    continue
+                l = f.exprs[ex.skip(f, lhs)]
+                if not (l["k"] == "mem" and l.get("in") == "ttx_page_stat" and l["member"] in ("subno_min", "subno_max")):
+                    continue
+                if not any(f.exprs[j]["k"] == "mem" and f.exprs[j]["member"] == "subno" and f.exprs[j].get("in") == "cache_page"
+                           for j in ex.walk(f, rhs)):
+                    continue
+                n += 1
+                run.touch(f)
+                it = l.get("it")
+                cap = ((1 << (it[0] - (1 if it[1] else 0))) - 1) if it else None
+                key = "RF-WIDTH:%s:%s" % (f.name, l["member"])
+                if cap is not None and cap >= top:
+                    run.holds("RF-WIDTH", key, "`%s`: the %d bit field holds every subcode up to %#x" % (ex.pretty(f, i)[:40], it[0], top),
+                              ex.loc(f, i))
+                else:
+                    run.violation("RF-WIDTH", key, "`%s` stores a subpage number (up to %#x; clock pages are cached with their "
+                                  "time-coded number) into a field that holds at most %#x: the statistics keep the low bits only, "
+                                  "vbi_cache_hi_subno() disagrees with the cached page and the search's page walk never visits it"
+                                  % (ex.pretty(f, i)[:40], top, cap if cap is not None else 0), ex.loc(f, i))
+    run.floor("statistics stores of a page's subpage number", n, 2)
